@@ -217,6 +217,36 @@ def run(ctx):
                 edges_clear.append((bi, tgt))
     can, w = A.can_succeed_avoiding(hu_h, [c.block for c in uc], removed_edges=set(edges_clear))
     ctx.inst("C15.R4", "panic_unpause/clears", bool(uc) and not can, "every successful admin unpause either runs the unpause transition or has observed the flag already clear", "", hu_h.loc(hu_h.raw["span"]))
+    # "unpausing never fails while a pause flag is set": the only refusal is decided on the state found at entry - once a handler has
+    # started to change the pause state no error exit is reachable any more, and the transitions it uses cannot fail themselves
+    def _fallible(fk, seen=None):
+        seen = seen if seen is not None else set()
+        if fk in seen or fk not in prog.fns:
+            return []
+        seen.add(fk)
+        g_ = prog.fns[fk]
+        out = ["%s raises %s" % (g_.name, v) for v in A.error_variants(prog, g_)]
+        if A.error_blocks(g_):
+            out.append("%s has an error exit" % g_.name)
+        for c in g_.calls():
+            if c.key in prog.fns and prog.fns[c.key].info["crate"] in ("marginfi", "marginfi_type_crate"):
+                out += _fallible(c.key, seen)
+        return out
+    for h, nm in ((hu_h, "panic_unpause"), (hup_h, "panic_unpause_permissionless")):
+        wb = A.write_blocks(prog, h, lambda o, n: o == PS, transitive=True)
+        errs = A.error_blocks(h) | {b for b in A.diverging_blocks(h) if h.blocks[b]["t"]["k"] == "call"}
+        succ = h.succ()
+        late = set()
+        for b in wb:
+            for s in succ[b]:
+                late |= (A.reach_without(h, start=s) | {s}) & errs
+        probs = ["an error exit at %s is reachable after the pause state has been changed" % h.bloc(b) for b in sorted(late)]
+        for c in h.calls():
+            if c.key in prog.fns and any(o == PS for (o, n) in prog.writes(c.key)):
+                probs += ["%s: %s" % (nm, p) for p in _fallible(c.key)[:2]]
+        ctx.inst("C15.R4", nm + "/cannot-fail-once-started", bool(wb) and not probs,
+                 "the refusal is decided on the state found at entry: after the first change to the pause state no error exit is reachable and the transitions used are infallible",
+                 "; ".join(probs[:3]) or "ok (%d state-changing blocks)" % len(wb), h.loc(h.raw["span"]))
     # permissionless: guards
     evs = set(A.error_variants(prog, hup_h).keys())
     ev1 = A.error_variant_blocks(hup_h, "ProtocolNotPaused")
